@@ -360,7 +360,15 @@ def make_handler(rt):
             'gil_released': st.ghost.get('gil_released', False)},
             list(st.path()), node.get('line')))
         if rt.ret == 'real':
-            return FltV(ex.fresh_real('ret_' + rt.name), 'double')
+            # named by the call site and by how often the path has been
+            # there: a statement re-executed after a fork regenerates the
+            # same symbol
+            key = ('ret', rt.name, node.get('line'),
+                   (node.get('off') or (0, 0))[0])
+            cnt = st.ghost.get(key, 0)
+            st.ghost[key] = cnt + 1
+            return FltV(z3.Real('ret_%s@%s.%s#%d' % (rt.name, key[2], key[3],
+                                                      cnt)), 'double')
         if rt.ret == 'index':
             r = ex.fresh_int('ret_' + rt.name, 'int')
             ex.axioms.append(z3.And(r.t >= 0, z3.Or(r.t <= ip['n'],
